@@ -12,10 +12,11 @@ CONFIG = dict(
           "Sphere-like LimitedVectorProblem, applied twice; (1) one coordinate per case for every point of the bound "
           "neighbourhood {a, b, next_up/next_down of each} and of the grid {a - k*d, b + k*d : k in 0.25,0.5,1,1.5,2,7,1e3,1e6} "
           "(the resampling operator with 6 quick / 48 thorough seeds each); (2) seeded populations of 1..3 individuals of "
-          "dimension 1..4 whose coordinates are all of one kind (bound / grid / random up to 1e3 widths away / inside); (3) huge "
+          "dimension 1..4 whose coordinates are all of one kind (bound / grid / random up to 1e3 widths away / inside); (2b) the same "
+          "on problems whose range DIFFERS per dimension ([0,1)x[10,20)x[-5,-4), ...), every coordinate judged against its own range; (3) huge "
           "finite coordinates (1e17, -1e17, 1e300, -f64::MAX). Every case runs in a worker process under a 2 s watchdog; a case "
           "that does not answer is re-run once in a fresh worker before it counts as `timeout`. Initialisers (Empty, RandomSpread, "
-          "RandomPermutation, RandomBitstring) for sizes 0..6, dimensions 0..6, the four domains, probabilities {0,0.25,0.5,1}, "
+          "RandomPermutation, RandomBitstring) for sizes 0..6, dimensions 0..6, the four domains and per-dimension different ranges, probabilities {0,0.25,0.5,1}, "
           "stack heights 0..2 and 2 quick / 6 thorough seeds. A case is non-trivial if it is a boundary case with a coordinate "
           "outside or on a bound, or an initialiser case with n >= 1 and dim >= 1; distinct = distinct canonical input."),
     nontrivial=lambda inp: (inp.startswith("(bnd") and "inside" not in inp) or
@@ -24,7 +25,7 @@ CONFIG = dict(
         "f64 arithmetic of the model = Lean's native Float (IEEE binary64 +,-,*,/,floor); theorems are in exact arithmetic over an ordered field",
         "rand's gen_range / shuffle / Bernoulli / Normal samplers are not modelled: their results are explicit witnesses "
         "(RandomSpread: gen_range's contract a <= x < b is checked on every generated coordinate); the resampling operator's "
-        "deviates come from a twin generator with the same seed",
+        "absolute standard-normal deviates come from a twin generator with the same seed (the model scales them by (b-a)/3 per coordinate)",
         "watchdog: 2 s wall clock per case in a separate worker process"],
     assumptions=["SplitMix64-seeded generator; mahf's Random seeded ChaCha12 per case",
                  "in-bounds oracle: closed bounds with 4 ulp slack on the bound arithmetic; inside-unchanged and idempotence are bit-exact"],
